@@ -195,11 +195,13 @@ def get (a : Arch) (c : Ctx) (name : String) : Option Nat :=
 
 end Ctx
 
-/-- The thread's stack memory: `MinidumpMemory { base_address, size = bytes.len(), bytes }`,
-    little endian. -/
+/-- The thread's stack memory: `MinidumpMemory { base_address, size = bytes.len(), bytes, endian }`.
+    `be` = the dump is big-endian (`get_memory_at_address` reads with the dump's byte order);
+    the default is little endian, so `{ base := b, bytes := x }` is what it was before. -/
 structure Mem where
   base : Nat
   bytes : Array UInt8
+  be : Bool := false
   deriving Inhabited
 
 namespace Mem
@@ -219,12 +221,21 @@ def leAt (m : Mem) (off : Nat) : Nat → Nat
   | 0 => 0
   | w + 1 => m.byte off + 256 * leAt m (off + 1) w
 
-/-- `get_memory_at_address::<uN>(addr)`: `addr.checked_sub(base)?`, then `pread` of `w` bytes. -/
+/-- big-endian value of `w` bytes at offset `off` -/
+def beAt (m : Mem) (off : Nat) : Nat → Nat
+  | 0 => 0
+  | w + 1 => m.byte off * 256 ^ w + beAt m (off + 1) w
+
+/-- value of `w` bytes at offset `off` in the memory's byte order (`readWordLE` / `readWordBE`) -/
+def wordAt (m : Mem) (off w : Nat) : Nat := if m.be then m.beAt off w else m.leAt off w
+
+/-- `get_memory_at_address::<uN>(addr)`: `addr.checked_sub(base)?`, then `pread_with` of `w` bytes
+    in the dump's byte order. -/
 def read (m : Mem) (addr w : Nat) : Option Nat :=
   if addr < m.base then none
   else
     let off := addr - m.base
-    if off + w ≤ m.size then some (m.leAt off w) else none
+    if off + w ≤ m.size then some (m.wordAt off w) else none
 
 /-- `memory_range().is_some_and(|r| r.contains(sp))` -/
 def inRange (m : Mem) (sp : Nat) : Bool :=
